@@ -153,6 +153,7 @@ let proto file =
           | "addasset_index" :: _ -> ()
           | [ "promote"; c ] -> app (OPromote (nd c))
           | [ "appcmd"; n; "despawn"; h ] -> (match resolve pr pi (nd h) with Some e -> app (OAppCmd (nd n, CAppDespawn e)) | None -> ())
+          | [ "appcmd"; n; "insert"; h; t; v ] -> (match resolve pr pi (nd h) with Some e -> app (OAppCmd (nd n, CAppInsert (e, nd t, parse_value v))) | None -> ())
           | [ "skin"; h; joints; poses ] ->
               (match resolve pr pi (nd h) with
                | Some e ->
